@@ -301,3 +301,12 @@ Theorem C01_cluster_every_node_can_converge : forall n ops i nd,
                 table (n_db nd') = table (merge_all [] U) /\ versions (n_db nd') = versions (merge_all [] U).
 Proof. exact cluster_every_node_can_converge. Qed.
 Print Assumptions C01_cluster_every_node_can_converge.
+
+(* NO VALUE FROM NOWHERE, as the property states it, for EVERY history of the cluster model and
+   without any hypothesis: a value a node shows in its table was carried by a change record of an
+   acknowledged transaction (for that row) *)
+Theorem C01_cluster_shown_values_were_acknowledged : forall n ops i nd k v,
+  nth_error (c_nodes (crun n ops)) i = Some nd -> In (k, Some v) (table (n_db nd)) ->
+  exists r, In r (all_recs (c_log (crun n ops))) /\ r_row r = k /\ r_val r = v.
+Proof. exact cluster_shown_values_were_acknowledged. Qed.
+Print Assumptions C01_cluster_shown_values_were_acknowledged.
